@@ -11,10 +11,10 @@ import (
 	"encoding/json"
 	"fmt"
 	"sort"
-	"strings"
 	"sync/atomic"
 	"time"
 
+	"github.com/vx-labs/mqtt-protocol/decoder"
 	"github.com/vx-labs/mqtt-protocol/packet"
 	"github.com/vx-labs/wasp/v4/wasp/transport"
 )
@@ -122,6 +122,90 @@ func descPkt(p packet.Packet) string {
 	return packet.TypeString(p)
 }
 
+func decoderNew() *decoder.Sync { return decoder.New() }
+
+func unhex(h string) []byte {
+	out := make([]byte, 0, len(h)/2)
+	for i := 0; i+1 < len(h); i += 2 {
+		var b byte
+		fmt.Sscanf(h[i:i+2], "%02x", &b)
+		out = append(out, b)
+	}
+	return out
+}
+
+type countingReader struct {
+	b   []byte
+	pos int
+}
+
+func (r *countingReader) Read(p []byte) (int, error) {
+	if r.pos >= len(r.b) {
+		return 0, fmt.Errorf("EOF")
+	}
+	n := copy(p, r.b[r.pos:])
+	r.pos += n
+	return n, nil
+}
+
+// simulateDecode runs the library decoder on exactly these bytes. complete = the frame's declared
+// length did not exceed what was given (otherwise the broker blocks in the body read).
+func simulateDecode(b []byte) (pkt packet.Packet, complete bool, err error) {
+	complete = completePacketLen(b) > 0 && completePacketLen(b) <= len(b)
+	defer func() {
+		if r := recover(); r != nil {
+			pkt, err = nil, fmt.Errorf("decoder panic: %v", r)
+		}
+	}()
+	pkt, err = decoderNew().Decode(&countingReader{b: b})
+	return
+}
+
+func rawOpTerm(c string, pkt packet.Packet, derr error, clk int64) string {
+	if derr != nil || pkt == nil {
+		return fmt.Sprintf("EProtoError %s %s", cqStr(c), cqZ(clk))
+	}
+	switch p := pkt.(type) {
+	case *packet.Publish:
+		h := p.Header
+		if h == nil {
+			h = &packet.Header{}
+		}
+		return fmt.Sprintf("EPublish %s (Publish %s %s %s %s) %s %s %s", cqStr(c), cqStr(string(p.Topic)), cqStr(string(p.Payload)), cqZ(int64(h.Qos)), cqBool(h.Retain), cqBool(h.Dup), cqZ(int64(p.MessageId)), cqZ(clk))
+	case *packet.Subscribe:
+		var fs []string
+		for i, f := range p.Topic {
+			q := int32(0)
+			if i < len(p.Qos) {
+				q = p.Qos[i]
+			}
+			fs = append(fs, fmt.Sprintf("(%s, %s)", cqStr(string(f)), cqZ(int64(q))))
+		}
+		return fmt.Sprintf("ESubscribe %s %s %s %s", cqStr(c), cqZ(int64(p.MessageId)), cqList(fs), cqZ(clk))
+	case *packet.Unsubscribe:
+		var fs []string
+		for _, f := range p.Topic {
+			fs = append(fs, string(f))
+		}
+		return fmt.Sprintf("EUnsubscribe %s %s %s %s", cqStr(c), cqZ(int64(p.MessageId)), cqStrs(fs), cqZ(clk))
+	case *packet.PubAck:
+		return fmt.Sprintf("EAck %s 4%%Z (RefRaw %s) %s", cqStr(c), cqZ(int64(p.MessageId)), cqZ(clk))
+	case *packet.PubRec:
+		return fmt.Sprintf("EAck %s 5%%Z (RefRaw %s) %s", cqStr(c), cqZ(int64(p.MessageId)), cqZ(clk))
+	case *packet.PubRel:
+		return fmt.Sprintf("EAck %s 6%%Z (RefRaw %s) %s", cqStr(c), cqZ(int64(p.MessageId)), cqZ(clk))
+	case *packet.PubComp:
+		return fmt.Sprintf("EAck %s 7%%Z (RefRaw %s) %s", cqStr(c), cqZ(int64(p.MessageId)), cqZ(clk))
+	case *packet.PingReq:
+		return fmt.Sprintf("EPing %s %s", cqStr(c), cqZ(clk))
+	case *packet.Disconnect:
+		return fmt.Sprintf("EDisconnect %s %s", cqStr(c), cqZ(clk))
+	case *packet.Connect:
+		return fmt.Sprintf("EProtoError %s %s", cqStr(c), cqZ(clk))
+	}
+	return fmt.Sprintf("ENoop %s", cqStr(c))
+}
+
 func cqOptPubE(p *jPub) string {
 	if p == nil {
 		return "None"
@@ -190,17 +274,16 @@ func (e2eFamily) Exec(id int, raw json.RawMessage) Case {
 		}
 		for _, n := range cl.nodes {
 			for _, ev := range n.log.takeEvents() {
-				if ev == "fail" {
+				if !ev.ok {
 					ts = append(ts, fmt.Sprintf("AppendFailed %s", cqNat(n.idx)))
 					hs = append(hs, fmt.Sprintf("node%d append failed", n.idx))
 					continue
 				}
-				f := strings.Split(ev, "\x00")
-				if f[1] == "_/barrier" {
+				if ev.topic == "_/barrier" {
 					continue
 				}
-				ts = append(ts, fmt.Sprintf("Appended %s %s %s %s %s", cqNat(n.idx), cqStr(f[1]), cqStr(f[2]), f[3]+"%Z", f[4]))
-				hs = append(hs, fmt.Sprintf("node%d append %s=%s", n.idx, f[1], f[2]))
+				ts = append(ts, fmt.Sprintf("Appended %s %s %s %s %s", cqNat(n.idx), cqStr(ev.topic), cqStr(ev.payload), cqZ(int64(ev.qos)), cqBool(ev.retain)))
+				hs = append(hs, fmt.Sprintf("node%d append %q=%q", n.idx, ev.topic, ev.payload))
 			}
 		}
 		cl.mu.Lock()
@@ -342,6 +425,54 @@ func (e2eFamily) Exec(id int, raw json.RawMessage) Case {
 			k.conn.WaitIdle(cl.wait())
 			syncMsg = settle(k)
 			withDl = o.P != "disc" && o.P != "connect"
+		case "raw":
+			// arbitrary bytes on an established connection: what the broker's decoder makes of them is
+			// found out by running the same decoder on the same bytes (the decoder is a dependency,
+			// outside /repo); the model is told the packet it yields, or that it fails
+			bytesIn := unhex(o.Hex)
+			pkt, complete, derr := simulateDecode(bytesIn)
+			k.conn.Feed(bytesIn)
+			if !complete {
+				// the broker blocks reading the body: the read deadline passes (the library ignores that
+				// error and decodes the zero-padded buffer)
+				time.Sleep(2 * time.Millisecond)
+				k.conn.FireTimeout()
+			}
+			k.conn.WaitIdle(cl.wait())
+			syncMsg = settle(k)
+			withDl = true
+			opT = rawOpTerm(o.C, pkt, derr, clk)
+			tags["raw"] = true
+		case "rawconnect":
+			nConn++
+			k = &e2eClient{name: o.C, node: o.N, conn: newScriptConn(), mids: map[string][]int{}}
+			clients[o.C] = k
+			order = append(order, o.C)
+			bytesIn := unhex(o.Hex)
+			pkt, complete, derr := simulateDecode(bytesIn)
+			go node.mgr.Setup(cl.ctx, transport.Metadata{Name: "script", Channel: k.conn})
+			k.conn.Feed(bytesIn)
+			if !complete {
+				time.Sleep(2 * time.Millisecond)
+				k.conn.FireTimeout()
+			}
+			if cp, isConn := pkt.(*packet.Connect); isConn && derr == nil {
+				if !k.conn.WaitOutCount(1, cl.wait()) {
+					tags["no-connack"] = true
+				}
+				k.conn.WaitIdle(cl.wait())
+				var will *jPub
+				if len(cp.WillTopic) > 0 {
+					will = &jPub{T: string(cp.WillTopic), P: string(cp.WillPayload), Q: cp.WillQos, R: cp.WillRetain}
+				}
+				opT = fmt.Sprintf("EConnect %s %s %s %s %s %s %s %s", cqNat(o.N), cqStr(o.C), cqStr(string(cp.ClientId)), cqStr(string(cp.Username)), cqStr(string(cp.Password)), cqZ(int64(cp.KeepaliveTimer)), cqOptPubE(will), cqZ(clk))
+			} else {
+				k.conn.WaitClosed(cl.wait())
+				opT = fmt.Sprintf("EBadConnect %s %s", cqNat(o.N), cqStr(o.C))
+			}
+			syncMsg = settle(nil)
+			withDl = true
+			tags["raw"] = true
 		case "eof":
 			k.conn.ClientEOF()
 			if !k.conn.WaitClosed(cl.wait()) {
